@@ -321,6 +321,9 @@ pub fn any_time() -> BoxedStrategy<u64> {
 pub fn tag_strategy(max_strings: usize, max_len: usize) -> BoxedStrategy<Vec<String>> {
     prop_oneof![
         1 => Just(Vec::<String>::new()),
+        // NIP-40 expiration tags with boundary values (read by Event::is_expired)
+        1 => prop::sample::select(vec!["0", "1", "1712693529", "99712693529", "18446744073709551615", "18446744073709551556", "18446744073709551616", "x", "", "-1", "1e3"])
+            .prop_map(|v| vec!["expiration".to_string(), v.to_string()]),
         8 => (prop_oneof![
                 3 => prop::sample::select(vec!["e", "p", "t", "a", "d", "E", "expiration", ""]).prop_map(|s| s.to_string()),
                 1 => rich_string(max_len),
